@@ -23,6 +23,12 @@ func renderedProject(rd *mdl.Rendered) *vlib.Project {
 
 // genModelCase draws a model and a layout; the expectation travels with the case (self-contained replay).
 func genModelCase(r vlib.Rnd, plain bool) (*vlib.Case, *mdl.Doc, *mdl.Rendered) {
+	return genModelCaseT(r, plain, false)
+}
+
+// genModelCaseT: with transform set, some renderings move directives into MACRO + PASTE and / or INCLUDE files (the
+// expected catalog is the model's, whatever the project structure).
+func genModelCaseT(r vlib.Rnd, plain, transform bool) (*vlib.Case, *mdl.Doc, *mdl.Rendered) {
 	doc := mdl.Gen(r)
 	var lay *mdl.Layout
 	opts := mdl.TreeOpts{R: r, Plain: plain}
@@ -32,7 +38,29 @@ func genModelCase(r vlib.Rnd, plain bool) (*vlib.Case, *mdl.Doc, *mdl.Rendered) 
 		lay = mdl.RandomLayout(r)
 	}
 	tree := mdl.BuildTree(doc, opts)
+	macros, cuts, ragged := 0, 0, 0
+	if transform && !plain {
+		if vlib.Chance(r, 1, 3) {
+			var rg int
+			tree, macros, _, rg = mdl.MacroizeRagged(r, tree, 1+r.Intn(3), true)
+			ragged += rg
+		}
+		if vlib.Chance(r, 1, 3) {
+			var rg int
+			tree, cuts, _, rg = mdl.SplitRagged(r, tree, 1+r.Intn(3), 1+r.Intn(3), true)
+			ragged += rg
+		}
+	}
 	rd := mdl.Render(tree, lay)
+	if macros > 0 {
+		rd.Features["structure:macros"]++
+	}
+	if cuts > 0 {
+		rd.Features["structure:includes"]++
+	}
+	if ragged > 0 {
+		rd.Features["structure:ragged"]++
+	}
 	exp := mdl.Expect(doc)
 	c := &vlib.Case{Project: renderedProject(rd), Expect: []byte(exp.Canon(false))}
 	feats := map[string]any{}
@@ -111,7 +139,7 @@ var c02Model = &vlib.Check{
 	Oracle: c02Oracle, Classify: c02Classify,
 	Gen: func(t *rapid.T) *vlib.Case {
 		r := vlib.RapidRnd{T: t}
-		c, _, _ := genModelCase(r, vlib.Chance(r, 1, 8))
+		c, _, _ := genModelCaseT(r, vlib.Chance(r, 1, 8), true)
 		return c
 	},
 }
